@@ -54,3 +54,63 @@ func HarnessBNG1Marshal() {
 	J.g.z = gfP{1}
 	vassert(J.UnmarshalBinary(ie) == nil && J.g.IsInfinity(), "G1: 64 zero bytes decode to the point at infinity")
 }
+
+// Equal on G1: two values are Equal iff their encodings are identical - in particular EVERY representation of the point
+// at infinity (z = 0, arbitrary x, y, t - what arithmetic such as P - P leaves behind) equals every other one and Null(),
+// and an affine point equals itself, differs from infinity and from a point with another coordinate.
+func HarnessBNG1Equal(p0 int) {
+	P, Q := newPointG1(), newPointG1()
+	for i := 0; i < 4; i++ {
+		P.g.x[i], P.g.y[i], P.g.t[i] = nondetU64(), nondetU64(), nondetU64()
+		Q.g.x[i], Q.g.y[i], Q.g.t[i] = nondetU64(), nondetU64(), nondetU64()
+	}
+	switch p0 {
+	case 0: // two arbitrary representations of infinity
+		P.g.z, Q.g.z = gfP{0}, gfP{0}
+		vreach("end")
+		vassert(P.Equal(Q) && Q.Equal(P), "two representations of the point at infinity are Equal")
+		N := newPointG1()
+		N.Null()
+		vassert(P.Equal(N) && N.Equal(P), "a representation of infinity left by arithmetic equals Null()")
+	case 1: // affine point against infinity and against itself
+		P.g.z, P.g.t = gfP{1}, gfP{1}
+		vassume(!(P.g.x == gfP{0} && P.g.y == gfP{0}))
+		Q.g.z = gfP{0}
+		vreach("end")
+		vassert(!P.Equal(Q) && !Q.Equal(P), "an affine point is not Equal to the point at infinity")
+		vassert(P.Equal(P), "a point equals itself")
+		R := newPointG1()
+		R.g.x, R.g.y, R.g.z, R.g.t = P.g.x, P.g.y, gfP{1}, gfP{1}
+		vassert(P.Equal(R), "two points with the same affine coordinates are Equal")
+		R.g.y[0] ^= 1
+		vassert(!P.Equal(R), "points with different coordinates are not Equal")
+	}
+}
+
+// native replay: identities reached by arithmetic (real field code) against Null() and against each other
+func HarnessBNG1EqualReplay(p0 int) {
+	ok := true
+	B := newPointG1()
+	B.Base()
+	N := newPointG1()
+	N.Null()
+	D := newPointG1()
+	D.Add(B, B)
+	ids := []*pointG1{newPointG1(), newPointG1(), newPointG1()}
+	ids[0].Sub(B, B)
+	ids[1].Add(D, newPointG1().Neg(D))
+	ids[2].Sub(D, D)
+	for _, a := range ids {
+		ea, _ := a.MarshalBinary()
+		en, _ := N.MarshalBinary()
+		ok = ok && string(ea) == string(en) && a.Equal(N) && N.Equal(a) && !a.Equal(B) && !B.Equal(a)
+		for _, b := range ids {
+			ok = ok && a.Equal(b)
+		}
+	}
+	ok = ok && B.Equal(B) && !B.Equal(D) && D.Equal(newPointG1().Add(B, B))
+	for _, id := range []string{"two representations of the point at infinity are Equal", "a representation of infinity left by arithmetic equals Null()", "an affine point is not Equal to the point at infinity",
+		"a point equals itself", "two points with the same affine coordinates are Equal", "points with different coordinates are not Equal"} {
+		vassert(ok, id)
+	}
+}
